@@ -18,7 +18,7 @@ PY
   echo "=== $name"
   (cd /repo && cargo test --workspace --offline --no-fail-fast 2>&1 | grep -E "^test result" | awk '{p+=$4; f+=$6} END {print "  suite: passed",p,"failed",f}')
   for id in "$@"; do
-    out=$(cd /verif && ./check $id 2>&1 | grep -E "^(VIOLATION|OK|KNOWN)" | head -2 | tr '\n' ' ')
+    out=$(cd /verif && VERIF_DEV_SKIP_AUDIT=$SKIP_AUDIT ./check $id 2>&1 | grep -E "^(VIOLATION|OK|KNOWN)" | head -2 | tr '\n' ' ')
     echo "  $id: $out"
   done
   git -C /repo checkout -- .
